@@ -2,14 +2,47 @@
 p2p/sync (Service, BlockFetcher, Client, adapters/p2p2core) and p2p/server (iterator, handlers,
 adapters/core2p2p). Specification spec/p2psync/{P2PSync,P2PServer}.tla, engine
 harness/engines/p2psync. Run with ./check G10. Not registered in MANIFEST.json; evidence is written
-to evidence/G10.json."""
+to evidence/G10.json.
+
+Confirmed defects are switches of the specifications (FALSE = the pinned commit, TRUE = repaired);
+what this check expects of the tree comes from known_findings.json: a finding listed `known` means
+the as-coded behaviour is expected and its divergences print KNOWN-FINDING; `fixed` or not listed
+means the REPAIRED model is what the code must conform to (and, for the crash, that peers which
+leave fields out take part in the replayed and free-running worlds)."""
 import json
 import os
+import re
 
 import vlib
 
 FAM = "p2psync"
 PARTS = {"t": "txs", "e": "evs", "c": "cls", "d": "sd"}
+
+# switch -> a concrete key of each signature family the defect is reported under
+FINDINGS = {
+    # p2p/sync: sends that do not watch the context (P2PSync.tla)
+    "CtxAwareSends": ["p2psync:leak:cancel-during-compile", "p2psync:leak:free-run:x"],
+    # adapters/p2p2core: absent sub-messages of a peer's answer are dereferenced (P2PSync.tla, class malformed)
+    "FieldsChecked": ["p2psync:crash:absent-field:txs.transaction"],
+    # p2p/server: iterator arithmetic modulo 2^64; request without iteration (P2PServer.tla)
+    "CheckedArith": ["p2pserver:range:step-wraps-round:fwd"],
+    "NilIterChecked": ["p2pserver:crash:request-without-iteration"],
+}
+
+
+def switches(ctx):
+    """switch = FALSE (the as-coded behaviour is expected) only while one of its keys is listed `known`"""
+    return {sw: not any(k["status"] == "known" and any(vlib.key_matches(k["key"], x) for x in keys) for k in ctx.known)
+            for sw, keys in FINDINGS.items()}
+
+
+def tla(b):
+    return "TRUE" if b else "FALSE"
+
+
+# a peer that leaves sub-messages out joins these worlds once adapters/p2p2core refuses such answers
+# (as coded it kills the engine process: the sweep of TestP2PSyncRobust shows that in a child process)
+MALFORMED_IN = {"mixed": ("x1", "malformed"), "plain": ("x1", "malformed")}
 
 # (name, class) of the simulated peers; the classes are the alphabet of P2PSync.tla (Ans)
 SIM_WORLDS = {
@@ -28,13 +61,19 @@ SIM_WORLDS = {
                  peers=[("h1", "honest"), ("h2", "benign"), ("c1", "corrupt"), ("m1", "mute"), ("k1", "flaky")]),
     "freefork": dict(shapes_a=["tecd", "te", "d", "tc"], fork_at=2, shapes_b=["te", "tecd"], start=0,
                      peers=[("h1", "honest"), ("f1", "fork"), ("o1", "other"), ("t1", "trunc")]),
+    # free-running rounds against a peer that leaves sub-messages out (only once FieldsChecked is the expectation)
+    "freemal": dict(shapes_a=["tecd", "te", "d", "tecd"], fork_at=-1, shapes_b=[], start=0,
+                    peers=[("h1", "honest"), ("h2", "benign"), ("x1", "malformed")]),
 }
 SERVER_WORLD = dict(shapes_a=["tecd", "te", "", "tecd", "d"], fork_at=-1, shapes_b=[], start=0, peers=[])
-ROBUST_WORLD = dict(shapes_a=["tecd", "te", "", "tecd", "d", "tecd", "tecd"], fork_at=-1, shapes_b=[], start=0, peers=[])
+# transactions in every block: with chainkit's rotation of kinds, seven blocks contain all ten kinds
+ROBUST_WORLD = dict(shapes_a=["tecd", "te", "t", "tecd", "td", "tecd", "tecd"], fork_at=-1, shapes_b=[], start=0, peers=[])
 
 # expected-violation configurations: cfg -> the property that must fail
 EXPECTED = {
     "P2PSync_x_leak.cfg": "NoLeak",
+    "P2PSync_x_malformed.cfg": "NoCrash",
+    "P2PSync_x_truncempty.cfg": "TruncNeverContributes",   # reachability witness, see P2PSync.tla
     "P2PSync_x_noverify.cfg": "EmittedVerified",
     "P2PSync_x_unchecked.cfg": "StoredIsChain",
     "P2PSync_x_noretry.cfg": "ExitOnlyAfterCancel",
@@ -61,7 +100,14 @@ def world_json(wd, new_state):
                 start=wd["start"], peers=[dict(name=n, **{"class": c}) for n, c in wd["peers"]])
 
 
-def sim_files(wd, new_state):
+def world_of(name, sw):
+    wd = dict(SIM_WORLDS[name])
+    if sw["FieldsChecked"] and name in MALFORMED_IN:
+        wd["peers"] = wd["peers"] + [MALFORMED_IN[name]]
+    return wd
+
+
+def sim_files(wd, new_state, sw):
     """The TLA+ world module and configurations of one world, and the same world for the engine."""
     ha = len(wd["shapes_a"])
     fork = wd["fork_at"] >= 0
@@ -77,12 +123,12 @@ def sim_files(wd, new_state):
     consts = "\n".join([
         "CONSTANTS HA = %d HB = %d ForkAt = %d Start = %d MaxIter = 0 WithCancel = TRUE" % (ha, hb, max(wd["fork_at"], 0), wd["start"]),
         "  Peers = {%s}" % ", ".join('"%s"' % n for n, _ in wd["peers"]),
-        "  Verify = TRUE Retry = TRUE CheckedStore = TRUE CtxAwareSends = FALSE%s",
+        "  Verify = TRUE Retry = TRUE CheckedStore = TRUE CtxAwareSends = " + tla(sw["CtxAwareSends"]) + " FieldsChecked = " + tla(sw["FieldsChecked"]) + "%s",
         "  ClassOf <- SimClass EmptyA <- SimEmptyA EmptyB <- SimEmptyB", ""])
     cfg = consts % " MaxSteps = 80" + "\n".join(["INIT MBTInit", "NEXT MBTNext", "CHECK_DEADLOCK FALSE", ""])
     tcfg = consts % "" + "\n".join(["INIT TraceInit", "NEXT TraceNext", "VIEW TraceView", "CONSTRAINT TraceConstraint",
                                     "POSTCONDITION TraceAccepted",
-                                    "INVARIANTS TypeOK StoredIsChain OnlyVerified EmittedVerified NoSkip", "CHECK_DEADLOCK FALSE", ""])
+                                    "INVARIANTS TypeOK StoredIsChain OnlyVerified EmittedVerified NoSkip NoCrash", "CHECK_DEADLOCK FALSE", ""])
     return {"P2PSyncWorld.tla": mod, "P2PSync_sim.cfg": cfg, "P2PSync_trace.cfg": tcfg}, world_json(wd, new_state)
 
 
@@ -95,20 +141,26 @@ def expect(ctx, module, cfg, prop, timeout=1500):
 
 def model_check(ctx):
     q = ctx.quick()
-    res = ctx.tlc_check(FAM, "MCP2PSync.tla", "P2PSync_quick.cfg", timeout=1500, coverage=not q)
-    if not q:
-        vlib.require_actions_covered(res, ignore=("Init",))
+    if q:
+        ctx.tlc_check(FAM, "MCP2PSync.tla", "P2PSync_q2.cfg", timeout=1500)
+    else:
+        res = ctx.tlc_check(FAM, "MCP2PSync.tla", "P2PSync_quick.cfg", timeout=1500, coverage=True)
+        # AdaptCrash exists in the as-coded model only (P2PSync_x_malformed.cfg)
+        vlib.require_actions_covered(res, ignore=("Init", "AdaptCrash"))
     ctx.tlc_check(FAM, "MCP2PSync.tla", "P2PSync_forkbelow.cfg", timeout=1500)
+    ctx.tlc_check(FAM, "MCP2PSync.tla", "P2PSync_malformed.cfg", timeout=1500)
+    ctx.tlc_check(FAM, "MCP2PSync.tla", "P2PSync_forktrunc_quick.cfg", timeout=1500)
     ctx.tlc_check(FAM, "MCP2PSync.tla", "P2PSync_cancel_live.cfg", timeout=1500)
     ctx.tlc_check(FAM, "MCP2PSync.tla", "P2PSync_live.cfg", timeout=1500)
-    quick_x = ["P2PSync_x_leak.cfg", "P2PSync_x_noverify.cfg", "P2PSync_x_unchecked.cfg", "P2PSync_x_noretry.cfg",
-               "P2PSync_x_fork.cfg", "P2PSync_x_cancel_live.cfg"]
+    quick_x = ["P2PSync_x_leak.cfg", "P2PSync_x_malformed.cfg", "P2PSync_x_truncempty.cfg", "P2PSync_x_noverify.cfg",
+               "P2PSync_x_unchecked.cfg", "P2PSync_x_noretry.cfg", "P2PSync_x_fork.cfg", "P2PSync_x_cancel_live.cfg"]
     for cfg, prop in EXPECTED.items():
         if q and cfg not in quick_x:
             continue
         expect(ctx, "MCP2PSync.tla", cfg, prop)
     if not q:
-        for cfg in ["P2PSync_ascoded.cfg", "P2PSync_fork.cfg", "P2PSync_thorough.cfg", "P2PSync_thorough_ascoded.cfg", "P2PSync_live_thorough.cfg"]:
+        for cfg in ["P2PSync_ascoded.cfg", "P2PSync_fork.cfg", "P2PSync_forktrunc.cfg", "P2PSync_thorough.cfg", "P2PSync_thorough_ascoded.cfg",
+                    "P2PSync_live_thorough.cfg"]:
             ctx.tlc_check(FAM, "MCP2PSync.tla", cfg, timeout=2400)
     # the serving side
     ctx.tlc_check(FAM, "P2PServer.tla", "P2PServer_quick.cfg", timeout=900)
@@ -130,22 +182,104 @@ def server_cases(ctx):
     return cases
 
 
-def replay(ctx, binary, name, new_state, nbeh, seed):
-    files, world = sim_files(SIM_WORLDS[name], new_state)
+JUNO = "github.com/NethermindEth/juno/"
+
+
+def crash_in_juno_goroutine(out):
+    """vlib attributes an engine crash to juno when the innermost frame is a juno function. A nil felt
+    dereferenced one library call deeper (gnark's field arithmetic under core/felt) is the same thing:
+    here the crashing goroutine must have been started by juno code and have no frame of the harness
+    on its stack. Returns (headline, innermost juno function) or None."""
+    m = re.search(r"^(panic: .*|fatal error: .*)$", out, re.M)
+    if not m:
+        return None
+    rest = out[m.end():]
+    g = re.search(r"^goroutine \d+ .*:$", rest, re.M)
+    if not g:
+        return None
+    block = rest[g.end():].split("\n\n", 1)[0]
+    frames = [ln.strip() for ln in block.splitlines() if ln.strip() and not ln.startswith(("\t", " ", "/"))]
+    created = [f for f in frames if f.startswith("created by ")]
+    funcs = [f for f in frames if not f.startswith("created by ")]
+    if any("verifharness/" in f for f in frames) or not created or not created[-1].startswith("created by " + JUNO):
+        return None
+    for f in funcs:
+        if f.startswith(JUNO):
+            fn = f[len(JUNO):]
+            return m.group(1)[:200], fn[:fn.rfind("(")] if "(" in fn else fn
+    return None
+
+
+def engine(ctx, binary, test, payload, timeout=1200):
+    """run_engine; an engine process killed by a panic in a goroutine of the code under test is a
+    divergence observed on the real code (the later stages still run)."""
+    try:
+        return ctx.run_engine(binary, test, payload, timeout=timeout)
+    except vlib.Broken as e:
+        site = crash_in_juno_goroutine(str(e))
+        if not site:
+            raise
+        print("[verif] engine %s %s: the process died in %s" % (FAM, test, site[1]), flush=True)
+        return {"replayed": 0, "steps": 0, "samples": [], "stats": {},
+                "divergences": [{"key": "p2psync:crash:engine-process:" + site[1], "step": 0, "input": payload,
+                                 "what": "the code under test killed the engine process during %s: %s in %s" % (test, site[0], site[1]),
+                                 "observed": str(e)[-1500:]}]}
+
+
+def absorb(ctx, res, test):
+    """A condition of the harness itself (a driver that could not set its scenario up) is broken
+    machinery (exit 2), never a verdict about the code."""
+    hs = [d for d in (res.get("divergences") or []) if str(d.get("key", "")).startswith("p2psync:harness")]
+    if hs:
+        raise vlib.Broken("engine %s %s: harness condition: %s" % (FAM, test, "; ".join(str(d.get("what"))[:300] for d in hs[:3])))
+    ctx.absorb(res, FAM, test)
+
+
+def replay(ctx, binary, name, new_state, nbeh, seed, sw):
+    files, world = sim_files(world_of(name, sw), new_state, sw)
     behs = ctx.tlc_simulate(FAM, "P2PSyncMBT.tla", "P2PSync_sim.cfg", depth=120 * nbeh, seed=seed, files=files, timeout=1500)
-    res = ctx.run_engine(binary, "TestP2PSyncReplay", {"world": world, "behaviours": behs}, timeout=2400)
-    ctx.absorb(res, FAM, "TestP2PSyncReplay")
+    res = engine(ctx, binary, "TestP2PSyncReplay", {"world": world, "behaviours": behs}, timeout=2400)
+    absorb(ctx, res, "TestP2PSyncReplay")
     return behs, world
 
 
-def validate_traces(ctx, binary, name, new_state, rounds, seed0):
+def rejection_key(name, sw, lines, at):
+    """The signature of a recorded run TLC rejects: the event the specification could not take and
+    the class of the peer that answered each part of the iteration it belongs to."""
+    cls = dict(world_of(name, sw)["peers"])
+    e = json.loads(lines[at])
+    asked = {}
+    for ln in reversed(lines[:at]):
+        x = json.loads(ln)
+        if x["ev"] == "Req" and x["part"] not in asked:
+            asked[x["part"]] = cls.get(x["peer"], "?")
+        if len(asked) == 5 or x["ev"] == "Reset" or (x["ev"] == "Recv" and e["ev"] != "Store"):
+            break
+    what = e["ev"]
+    if e["ev"] == "Recv":
+        what += ":" + e["k"] + (":%s%d" % (e["c"], e["h"]) if e["k"] == "good" else "")
+    elif e["ev"] == "Store":
+        what += ":%s:%s%d" % ("accepted" if e["ok"] else "refused", e["c"], e["h"])
+    elif e["ev"] in ("Open", "Req"):
+        what += ":%s:%s" % (e["part"], cls.get(e["peer"], "?"))
+    elif e["ev"] == "DialFail":
+        what += ":" + cls.get(e["peer"], "?")
+    return "p2psync:trace:not-a-behaviour:%s:%s" % (what, ",".join("%s=%s" % (p, asked[p]) for p in ("hdr", "txs", "evs", "cls", "sd") if p in asked))
+
+
+def validate_traces(ctx, binary, name, new_state, rounds, seed0, sw):
     """Free-running rounds: Go monitors inside the engine, then TLC on the recorded trace."""
-    files, world = sim_files(SIM_WORLDS[name], new_state)
+    files, world = sim_files(world_of(name, sw), new_state, sw)
     tf = os.path.join(ctx.scratch, "trace-%s.ndjson" % name)
     rm = os.path.join(ctx.scratch, "rmap-%s.json" % name)
-    res = ctx.run_engine(binary, "TestP2PSyncFree", dict(world=world, rounds=rounds, seed0=seed0, trace=tf, round_map=rm,
-                                                         max_iters=8000, cancel=True), timeout=2400)
-    ctx.absorb(res, FAM, "TestP2PSyncFree")
+    for f in (tf, rm):
+        if os.path.exists(f):
+            os.remove(f)
+    res = engine(ctx, binary, "TestP2PSyncFree", dict(world=world, rounds=rounds, seed0=seed0, trace=tf, round_map=rm,
+                                                     max_iters=8000, cancel=True), timeout=2400)
+    absorb(ctx, res, "TestP2PSyncFree")
+    if not os.path.exists(rm):     # the engine process died (reported above): nothing was recorded
+        return None, files
     rinfo = json.load(open(rm))
     lines = open(tf).read().splitlines()
     if not rinfo:
@@ -163,17 +297,19 @@ def validate_traces(ctx, binary, name, new_state, rounds, seed0):
             if inv in ("StoredIsChain", "OnlyVerified", "EmittedVerified", "NoSkip", "TypeOK"):
                 # an invariant of the specification is false on the recorded run of the real code
                 ctx.report("p2psync:trace-violates:" + inv, "a recorded run of the real service violates %s of P2PSync.tla" % inv,
-                           {"property": "G10", "engine": FAM, "test": "trace", "seed": ctx.seed,
-                            "input": {"world_name": name, "new_state": new_state, "lines": lines}})
+                           {"property": "G10", "engine": FAM, "test": "trace", "seed": ctx.seed, "divergence": {"key": "p2psync:trace-violates:" + inv},
+                            "input": {"world_name": name, "new_state": new_state, "lines": lines, "switches": sw}})
                 break
             raise vlib.Broken("trace validation failed for another reason than rejection:\n%s" % "\n".join(r["out"].splitlines()[-30:]))
         hw = r["highwater"]
         bad = ([x for x in rinfo if x["first"] <= hw <= x["last"]] or [rinfo[-1]])[0]
         seg = lines[bad["first"] - 1: bad["last"]]
-        ctx.report("p2psync:trace-rejected", "a recorded run of the real service is not a behaviour of P2PSync.tla (world %s, round seed %s, stuck at "
-                   "line %d of the round: %s)" % (name, bad["seed"], hw - bad["first"] + 1, lines[min(hw, len(lines)) - 1][:200]),
-                   {"property": "G10", "engine": FAM, "test": "trace", "seed": ctx.seed,
-                    "input": {"world_name": name, "new_state": new_state, "lines": seg}})
+        at = min(hw, bad["last"]) - bad["first"]
+        key = rejection_key(name, sw, seg, at)
+        ctx.report(key, "a recorded run of the real service is not a behaviour of P2PSync.tla (world %s, round seed %s, stuck at "
+                   "line %d of the round: %s)" % (name, bad["seed"], at + 1, seg[at][:200]),
+                   {"property": "G10", "engine": FAM, "test": "trace", "seed": ctx.seed, "divergence": {"key": key},
+                    "input": {"world_name": name, "new_state": new_state, "lines": seg, "switches": sw}})
         # drop the rejected round and validate the rest
         lines = lines[:bad["first"] - 1] + lines[bad["last"]:]
         n = bad["last"] - bad["first"] + 1
@@ -232,15 +368,16 @@ def run(ctx):
         rp = json.load(open(ctx.replay))
         if rp["test"] == "trace":
             wd = rp["input"]
-            files, _ = sim_files(SIM_WORLDS[wd["world_name"]], wd["new_state"])
+            sw = wd.get("switches") or switches(ctx)
+            files, _ = sim_files(world_of(wd["world_name"], sw), wd["new_state"], sw)
             tf = os.path.join(ctx.scratch, "replay.ndjson")
             with open(tf, "w") as f:
                 f.write("\n".join(wd["lines"]) + "\n")
             ok, r = ctx.tlc_trace(FAM, "P2PSyncTrace.tla", "P2PSync_trace.cfg", tf, timeout=1500, files=files)
             if not ok:
-                ctx.report(rp.get("divergence", {}).get("key", "p2psync:trace-rejected"), "the recorded run is rejected by P2PSync.tla (replay)", rp)
+                ctx.report(rp.get("divergence", {}).get("key", "p2psync:trace:not-a-behaviour"), "the recorded run is rejected by P2PSync.tla (replay)", rp)
             return ctx.finish("model_checking", "replay of one recorded trace")
-        ctx.absorb(ctx.run_engine(binary, rp["test"], rp["input"]), FAM, rp["test"])
+        absorb(ctx, engine(ctx, binary, rp["test"], rp["input"]), rp["test"])
         return ctx.finish("model_checking", "replay")
 
     try:
@@ -256,6 +393,8 @@ def run(ctx):
 
 def body(ctx, binary):
     q = ctx.quick()
+    sw = switches(ctx)
+    ctx.coverage["switches_expected_of_this_tree"] = {k: ("repaired" if v else "as coded (listed known)") for k, v in sw.items()}
     ctx.assumptions += [
         "nothing in p2p/sync stores a block at the pinned commit (the consumer of Listen() is gone from node.go): the harness plays the "
         "consumer the code had before — Blockchain.Store of every error-free body in arrival order",
@@ -271,34 +410,43 @@ def body(ctx, binary):
            [("mixed", False, 500), ("mixed", True, 300), ("plain", True, 400), ("plain", False, 300), ("forkbelow", False, 300), ("forkbelow", True, 200)]
     first = None
     for i, (name, ns, nbeh) in enumerate(plan):
-        behs, world = replay(ctx, binary, name, ns, nbeh, ctx.seed * 100 + i)
+        behs, world = replay(ctx, binary, name, ns, nbeh, ctx.seed * 100 + i, sw)
         first = first or (behs, world)
 
     # free-running rounds: monitors + TLC trace validation
+    free = [("free", False, 8), ("freefork", True, 6)] if q else \
+           [("free", False, 40), ("free", True, 30), ("freefork", True, 30), ("freefork", False, 20), ("plain", False, 30)]
+    if sw["FieldsChecked"]:
+        free += [("freemal", False, 4)] if q else [("freemal", False, 20), ("freemal", True, 20)]
     lines = files = None
-    for i, (name, ns, rounds) in enumerate([("free", False, 8), ("freefork", True, 6)] if q else
-                                           [("free", False, 40), ("free", True, 30), ("freefork", True, 30), ("freefork", False, 20), ("plain", False, 30)]):
-        l2, f2 = validate_traces(ctx, binary, name, ns, rounds, ctx.seed * 10_000 + 1000 * i)
+    for i, (name, ns, rounds) in enumerate(free):
+        l2, f2 = validate_traces(ctx, binary, name, ns, rounds, ctx.seed * 10_000 + 1000 * i, sw)
         if l2 and lines is None:
             lines, files = l2, f2
 
     # the serving side: every request of P2PServer.tla's domain against the contract
     cases = server_cases(ctx)
-    sw = world_json(SERVER_WORLD, False)
-    ctx.absorb(ctx.run_engine(binary, "TestP2PServerContract", {"world": sw, "m": 16, "cases": cases}), FAM, "TestP2PServerContract")
-    ctx.absorb(ctx.run_engine(binary, "TestP2PServerGarbage", {"world": sw, "m": 16, "cases": []}), FAM, "TestP2PServerGarbage")
+    srvw = world_json(SERVER_WORLD, False)
+    absorb(ctx, engine(ctx, binary, "TestP2PServerContract", {"world": srvw, "m": 16, "cases": cases}), "TestP2PServerContract")
+    absorb(ctx, engine(ctx, binary, "TestP2PServerGarbage", {"world": srvw, "m": 16, "cases": []}), "TestP2PServerGarbage")
     if not q:
-        ctx.absorb(ctx.run_engine(binary, "TestP2PServerContract", {"world": world_json(SERVER_WORLD, True), "m": 16, "cases": cases}), FAM, "TestP2PServerContract")
+        absorb(ctx, engine(ctx, binary, "TestP2PServerContract", {"world": world_json(SERVER_WORLD, True), "m": 16, "cases": cases}), "TestP2PServerContract")
 
-    # cancellation races found by TLC in the as-coded model; malformed answers; stated limits
+    # cancellation races found by TLC in the as-coded model; malformed answers (EVERY one-field-missing shape in both tiers:
+    # a few seconds on a tree that refuses them, a child-process restart per crash on one that does not); stated limits
     rw = world_json(ROBUST_WORLD, False)
-    ctx.absorb(ctx.run_engine(binary, "TestP2PSyncCancel", {"world": rw}), FAM, "TestP2PSyncCancel")
-    ctx.absorb(ctx.run_engine(binary, "TestP2PSyncRobust", {"world": rw, "max_quick": 60}, timeout=2400), FAM, "TestP2PSyncRobust")
+    absorb(ctx, engine(ctx, binary, "TestP2PSyncCancel", {"world": rw}), "TestP2PSyncCancel")
+    absorb(ctx, engine(ctx, binary, "TestP2PSyncRobust", {"world": rw}, timeout=2400), "TestP2PSyncRobust")
     lim = ctx.run_engine(binary, "TestP2PSyncLimits", {})
     for k, v in sorted((lim.get("stats") or {}).items()):
         if k.startswith("limit:"):
             print("OBSERVATION: property=G10 %s: %s" % (k[6:], v), flush=True)
     ctx.coverage["limit_probes"] = {k: str(v).split(" — ")[0] for k, v in (lim.get("stats") or {}).items()}
+
+    # a finding listed `known` that did not show up is only worth a note
+    for swname, on in sw.items():
+        if not on and not any(any(vlib.key_matches(h["key"], x) for x in FINDINGS[swname]) for h in ctx.known_hits):
+            print("NOTE: property=G10 the known finding behind %s = FALSE did not reproduce in this run" % swname, flush=True)
 
     if not q and lines:
         selftest(ctx, binary, lines, files, first[0], first[1])
@@ -308,5 +456,7 @@ def body(ctx, binary):
                       "and P2PServer.tla; TLC-simulated behaviours (peer classes per request, arrival orders, consumer interleavings, cancellation) "
                       "replayed in lockstep on the real p2p/sync Service against scripted peers that are real p2p/server instances behind a fault "
                       "stage, projection compared before every harness step; free-running rounds judged by monitors and by TLC trace validation; "
-                      "every request of the server model's domain replayed on the real handlers against the declared range; one-field-missing "
-                      "variants of every answer message; the cancellation races of the as-coded model reproduced with gates")
+                      "every request of the server model's domain replayed on the real handlers against the declared range; every "
+                      "one-field-missing shape of every answer message (real messages of all ten transaction kinds, synthetic ones for the rest "
+                      "of the wire format) in a child process; the cancellation races of the as-coded model reproduced with gates; expectations "
+                      "(repaired / as coded) per defect switch from known_findings.json")
